@@ -19,6 +19,7 @@ from vf.evidence import MachineryFailure
 
 FIN = 'kopf.zalando.org/KopfFinalizerMarker'
 PREFIX = 'kopf.zalando.org'
+TWIN_GROUP = 'other.example.com'
 NEVER = 1000000
 REASONS = ('create', 'update', 'delete', 'resume')
 UNIVERSE = ['a', 'b', 'c', 'd', 'e', 'r', 'a/x', 'a/y']       # 'a/x', 'a/y': sub-handlers of 'a' (scenario key `subs`)
@@ -130,6 +131,24 @@ def run_scenario(sc: dict[str, Any]) -> dict[str, Any]:
             for hid, c in (sc.get('daemons') or {}).items():        # daemons on the same object (scripted reactions, see vf/daemons.py)
                 kopf.daemon(GROUP, VERSION, PLURAL, registry=reg, id=hid, cancellation_backoff=c['backoff'] or None,
                             cancellation_timeout=c['timeout'] or None, cancellation_polling=3, **flt)(dfns[hid])
+            if sc.get('crowd'):      # bystanders: a second kind of the same plural in another group, with handlers of its own
+                async def tw(**_: Any) -> Any:
+                    return None
+
+                async def tw_slow(retry, **_: Any) -> Any:
+                    if retry < 1:
+                        raise kopf.TemporaryError('bystander', delay=2)
+
+                async def tw_daemon(stopped, **_: Any) -> None:
+                    await stopped.wait()
+                kopf.on.create(TWIN_GROUP, VERSION, PLURAL, registry=reg, id='tw_a')(tw)
+                kopf.on.create(TWIN_GROUP, VERSION, PLURAL, registry=reg, id='tw_b')(tw_slow)
+                kopf.on.update(TWIN_GROUP, VERSION, PLURAL, registry=reg, id='tw_a')(tw)
+                kopf.on.update(TWIN_GROUP, VERSION, PLURAL, registry=reg, id='tw_f', field='status.phase')(tw)
+                kopf.on.resume(TWIN_GROUP, VERSION, PLURAL, registry=reg, id='tw_r')(tw)
+                kopf.on.delete(TWIN_GROUP, VERSION, PLURAL, registry=reg, id='tw_d', optional=True)(tw)
+                for hid in (sc.get('daemons') or {'d1': None}):      # a daemon under the very id of the main object's (or d1)
+                    kopf.daemon(TWIN_GROUP, VERSION, PLURAL, registry=reg, id=hid, cancellation_backoff=1, cancellation_timeout=1)(tw_daemon)
             return reg
 
         def settings():
@@ -205,6 +224,32 @@ def run_scenario(sc: dict[str, Any]) -> dict[str, Any]:
         held = {'on': False}
         sim.srv.watch_policy = lambda w, line: not (held['on'] and w.res.plural == PLURAL)
 
+        if sc.get('crowd'):
+            # the crowd: the same plural in another group (objects o1 -- the main object's namesake -- and o2) and a second object of the main
+            # kind; they are created, edited (also in their status only), deleted and re-created on a schedule of their own
+            from sim.fakek8s import ResDef
+            import random as _random
+            twin = sim.srv.add_resource(ResDef(TWIN_GROUP, VERSION, PLURAL, 'Thing', namespaced=True))
+            rc = _random.Random(f'crowd-{sc["id"]}')
+            lab = {'on': 'yes'}
+
+            def by(kind: str, res: Any, name: str) -> None:
+                o = sim.srv.get(res, 'ns', name)
+                if kind == 'create' and o is None:
+                    sim.srv.create(res, 'ns', name, {'spec': {'x': 1}, 'metadata': {'labels': dict(lab)}})
+                elif kind == 'edit' and o is not None and not o['metadata'].get('deletionTimestamp'):
+                    sim.srv.edit(res, 'ns', name, lambda b: b.setdefault('spec', {}).update(x=b.get('spec', {}).get('x', 0) + 1))
+                elif kind == 'status' and o is not None:
+                    sim.srv.edit(res, 'ns', name, lambda b: b.setdefault('status', {}).update(phase=rc.choice(['Pending', 'Running'])), actor='foreign')
+                elif kind == 'delete' and o is not None:
+                    sim.srv.delete(res, 'ns', name)
+            for res_, name_ in ((twin, 'o1'), (twin, 'o2'), (sim.things, 'o2')):
+                t_ = rc.choice([0, 0, 1, 2])
+                sim.world.at(t_, (lambda r_=res_, n_=name_: by('create', r_, n_)), 1)
+                for _k in range(rc.randint(2, 7)):
+                    t_ += rc.choice([0, 1, 1, 2, 3, 5])
+                    kind_ = rc.choice(['edit', 'edit', 'status', 'status', 'delete', 'create'])
+                    sim.world.at(t_, (lambda k_=kind_, r_=res_, n_=name_: by(k_, r_, n_)), rc.choice([0, 1]))
         start()
         sim.world.at(t0, create, 1)
         for (t, phase, op, *a) in sc.get('env', []):
@@ -219,11 +264,12 @@ def run_scenario(sc: dict[str, Any]) -> dict[str, Any]:
         except Stall as e:
             stall = True
             sim.rec('stall', what=str(e))
-        raw = sim.recorder.events
+        raw_all = sim.recorder.events
+        raw = focus(raw_all, GROUP, PLURAL, 'o1') if sc.get('crowd') else raw_all
         tr = convert(raw, hs, sc)
         orch = None
         o_ = state['op']
-        if not stall and o_ is not None and not o_.killed and not o_.done:      # the orchestrator of the process that is alive at the end
+        if not stall and o_ is not None and not o_.killed and not o_.done and not sc.get('crowd'):      # the orchestrator of the process that is alive at the end (crowds: judged in C19)
             from vf import orchestration
             orch = orchestration.trace_of(raw, o_.name, f'{sc["id"]}/{o_.name}', sim.insights_of(o_.name))
         livelock = stall and (sim.recorder.overflow or 'loop iterations' in str(sim.world.stalled or ''))
@@ -234,7 +280,7 @@ def run_scenario(sc: dict[str, Any]) -> dict[str, Any]:
             tr['events'] = cut + [{'ev': 'livelock', 't': cut[-1]['t'] if cut else 0}]
         from vf import inventory
         return {'id': sc['id'], 'conf': conf_of(sc), 'init': tr['init'], 'events': tr['events'], 'stall': stall, 'livelock': bool(livelock), 'scenario': sc, 'orch': orch,
-                'mem': inventory.traces_of(raw, sc['id']),
+                'mem': inventory.traces_of(raw_all, sc['id']),
                 'final': project(sim.things, sim.obj('o1')) if sim.obj('o1') else None,
                 'patches_tail': len([e for e in raw if e['ev'] == 'srv.req' and e.get('kind') == 'patch'
                                      and e['t'] > sc.get('tail_from', sc['end'])])}
@@ -273,6 +319,82 @@ def _rvparse(v: Any, off: int) -> int:
     if '~' in s:
         return NEVER
     return int(s) - off
+
+
+# --------------------------------------------------------------------------- one object out of a crowd
+def focus(raw: list[dict[str, Any]], group: str, plural: str, name: str) -> list[dict[str, Any]]:
+    """The log of a run with several objects and kinds, reduced to what concerns ONE object (the first incarnation of `name` of that
+    kind): the events of the others are dropped, and the versions of the object -- which are no longer consecutive, the cluster's counter
+    being shared -- are renumbered consecutively.  Nothing else is touched: the object must behave as if it were alone."""
+    import copy as _copy
+    uid = next((e['uid'] for e in raw if e['ev'] == 'srv.create' and e.get('res') == plural and e.get('group') == group and e.get('name') == name), None)
+    if uid is None:
+        return raw
+    m: dict[int, int] = {}
+    base: list[int] = []
+
+    def new(rv: Any) -> Any:
+        try:
+            r = int(rv)
+        except (TypeError, ValueError):
+            return rv
+        return m.get(r, r)
+
+    def learn(rv: int) -> None:
+        if not base:
+            base.append(rv)
+        if rv not in m:
+            m[rv] = base[0] + len(m)
+    out = []
+    scheds_drop: set[Any] = set()
+    for e in raw:
+        ev = e['ev']
+        if ev in ('srv.create', 'srv.write', 'srv.state') and e.get('res') == plural:
+            if e.get('group') != group or e.get('uid') != uid:
+                continue
+            e = _copy.deepcopy(e)
+            if not e.get('noop'):
+                learn(int(e['rv']))
+            e['rv'] = new(e['rv'])
+            if isinstance(e.get('proj'), dict) and 'rv' in e['proj']:
+                e['proj']['rv'] = new(e['proj']['rv'])
+        elif ev == 'q.start' and e.get('res') == plural and e.get('group') != group:
+            scheds_drop.add(e.get('sched')); continue
+        elif ev in ('q.depleting', 'sched.close') and e.get('sched') in scheds_drop:
+            continue
+        elif ev.startswith('q.') and e.get('res') == plural and 'uid' in e:
+            if e['uid'] != uid:
+                continue
+            e = dict(e)
+            for k in ('rv', 'expected', 'patched'):
+                if e.get(k) is not None and '~' not in str(e[k]):
+                    e[k] = new(e[k])
+        elif ev == 'srv.req' and e.get('plural') == plural:
+            if e.get('group') != group:
+                continue
+            if e.get('kind') == 'list':
+                e = dict(e)
+                e['rvs'] = [new(rv) for u, rv in zip(e.get('uids', []), e.get('rvs', [])) if u == uid]
+            elif e.get('kind') == 'patch':
+                if e.get('name') != name:
+                    continue
+                e = _copy.deepcopy(e)
+                if isinstance(e.get('proj'), dict) and 'rv' in e['proj']:
+                    if e.get('code') == 200 and e.get('changed'):
+                        learn(int(e['proj']['rv']))
+                    e['proj']['rv'] = new(e['proj']['rv'])
+                for k in ('rv_after',):
+                    if e.get(k) is not None:
+                        e[k] = new(e[k])
+        elif ev.startswith('d.') and e.get('uid') not in (uid, None):
+            continue
+        elif ev in ('h.enter', 'h.exit') and e.get('kind') == 'change':
+            if e.get('uid') not in (uid, None):
+                continue
+            if ev == 'h.enter' and e.get('rv') is not None:
+                e = dict(e); e['rv'] = new(e['rv'])
+        out.append(e)
+    return out
 
 
 # --------------------------------------------------------------------------- raw log -> trace
